@@ -108,6 +108,8 @@ M("c13-leak-ref-on-failure", "C13", "json_patch.c",
 M("c13-failure-idx-late", "C13", "json_patch.c",
   "\t\tpatch_error->patch_failure_idx = ii;\n\n\t\tif (!json_object_object_get_ex(patch_elem, \"op\", &jop)) {",
   "\t\tif (!json_object_object_get_ex(patch_elem, \"op\", &jop)) {\n\t\t\tpatch_error->patch_failure_idx = ii;", needle="index")
+M("c13-del-escaped-key", "C13", "json_patch.c",
+  "\t\tjson_pointer_unescape_token(key);\n\t\tjson_object_object_del(jpres->parent, key);", "\t\tjson_object_object_del(jpres->parent, key);", needle="C13.R6")
 M("c13-benign-guard-style", "C13", "json_patch.c",
   "\t\tif (op == NULL || path == NULL) {", "\t\tif (!op || !path) {", expect="silent")
 
